@@ -23,6 +23,19 @@ from vf.models.base import Model
 LAST = 2
 
 
+
+def _js(j, m, o, d):
+    def f():
+        from jumanji.environments import JobShop
+        from jumanji.environments.packing.job_shop.generator import RandomGenerator
+
+        return JobShop(generator=RandomGenerator(j, m, o, d))
+    return f
+
+
+# extra generator configurations for C10: minimum sizes, one machine, many ops / long durations
+EXTRA_INSTANCE_CONFIGS = {"x_j2m2o2d1": _js(2, 2, 2, 1), "x_j3m1o1d3": _js(3, 1, 1, 3), "x_j2m7o9d9": _js(2, 7, 9, 9)}
+
 class M(Model):
     ENV = "JobShop"
     DETERMINISTIC_CONFIGS = {"toy"}
